@@ -80,8 +80,34 @@ func NewEventSerializer(parentLogger logger.Logger, schema base.LogSchema, confi
 
 // SerializeRecord serializes log records into streams
 func (packer *eventSerializer) SerializeRecord(record *base.LogRecord) base.LogStream {
+	// encodeRecord does not check bounds: transforms or an oversized header may have grown the record beyond the buffer
+	if maxLength := packer.maxEncodedLength(record); maxLength >= len(packer.buffer) {
+		packer.logger.Errorf("serialized log exceeds buffer limit: %d", maxLength)
+		return packer.buffer[:0]
+	}
 	length := packer.encodeRecord(record, packer.buffer)
 	return packer.buffer[:length]
+}
+
+// maxEncodedLength returns an upper bound of the number of bytes encodeRecord writes for the given record
+func (packer *eventSerializer) maxEncodedLength(record *base.LogRecord) int {
+	fields := record.Fields[0:len(packer.fieldMasks)]
+	total := 14 + 15 // root array, timestamp and root map header + "environment" key and map header
+	for i, value := range fields {
+		if packer.fieldMasks[i] || len(value) == 0 {
+			continue
+		}
+		total += len(packer.serializedFieldKeys[i]) + 5
+		if headRewriter := packer.fieldRewriters[i]; headRewriter != nil {
+			total += headRewriter.MaxFieldLength(value, record)
+		} else {
+			total += len(value)
+		}
+	}
+	for i, loc := range packer.envFieldLocators {
+		total += len(packer.serializedEnvFieldKeys[i]) + 5 + len(loc.Get(fields))
+	}
+	return total
 }
 
 // encodeRecord encodes the given log record to buffer and returns the end position.
